@@ -76,8 +76,8 @@ var (
 	UTC   = time.UTC
 )
 
-func FixedZone(name string, offset int) *Location     { return time.FixedZone(name, offset) }
-func LoadLocation(name string) (*Location, error)     { return time.LoadLocation(name) }
+func FixedZone(name string, offset int) *Location { return time.FixedZone(name, offset) }
+func LoadLocation(name string) (*Location, error) { return time.LoadLocation(name) }
 func LoadLocationFromTZData(name string, data []byte) (*Location, error) {
 	return time.LoadLocationFromTZData(name, data)
 }
